@@ -250,6 +250,12 @@ fn check_doc(e: &'static Encoding, doc: &Doc, cuts: Option<Vec<usize>>) -> Resul
     if let Some(d) = diff(&want, &got) {
         return Err(format!("Reader::from_str with a declaration naming {}: {}", e.name(), d));
     }
+    // ... also when the string starts with a byte-order mark (U+FEFF)
+    let with_bom = format!("{}{}", '\u{FEFF}', utf8);
+    let got = read_decoded(Src::Str(&with_bom), UTF_8).map_err(|m| format!("from_str with a leading U+FEFF: {}", m))?;
+    if let Some(d) = diff(&want, &got) {
+        return Err(format!("Reader::from_str with a leading U+FEFF and a declaration naming {}: {}", e.name(), d));
+    }
     Ok(())
 }
 
@@ -394,11 +400,12 @@ fn check_state_machine(loc: &mut Local) -> Result<(), String> {
         return Err(format!("bytes FF FE after the declaration changed the encoding to {}", r.decoder().encoding().name()));
     }
     // Explicit (from_str) never refined
-    let s = "<?xml version='1.0' encoding='koi8-r'?><r>\u{FEFF}</r>";
-    let mut r = Reader::from_str(s);
-    while !matches!(r.read_event().map_err(|e| e.to_string())?, Event::Eof) {}
-    if r.decoder().encoding() != UTF_8 {
-        return Err(format!("Reader::from_str: the declaration changed the encoding to {}", r.decoder().encoding().name()));
+    for s in ["<?xml version='1.0' encoding='koi8-r'?><r>\u{FEFF}</r>", "\u{FEFF}<?xml version='1.0' encoding='koi8-r'?><r>\u{44F}</r>", "\u{FEFF}<r/>"] {
+        let mut r = Reader::from_str(s);
+        while !matches!(r.read_event().map_err(|e| e.to_string())?, Event::Eof) {}
+        if r.decoder().encoding() != UTF_8 {
+            return Err(format!("Reader::from_str({:?}): the encoding changed to {}", s, r.decoder().encoding().name()));
+        }
     }
     *loc.paths.entry("path.explicit").or_insert(0) += 1;
     Ok(())
